@@ -84,6 +84,17 @@ theorem gen_prog_atomic : Gen.TokenProg.prog = atomicProg := by decide
 /-- OBLIGATION on the generated return expression: the token string is `prefix + _instance_id + "_" + str(nr)` -/
 theorem gen_token_shape : Gen.TokenProg.shape = tokenShape := by decide
 
+/-- OBLIGATION on the generated identifier sources: `_instance_id` (assigned exactly once, in `__init__`) contains at
+least 48 bits from the OS entropy source — not the seedable global PRNG, a clock, a pid or anything else a client
+program can bring into the same state twice.  This is the checkable part of the freshness hypothesis
+(`(ctxs.map Ctx.nonce).Nodup`) of `auto_tokens_distinct` / `only_holder_executes`; that two draws of 48 OS-random bits
+differ is the residual (probabilistic) assumption. -/
+theorem gen_instance_id_from_os_entropy : fromOsEntropy Gen.TokenProg.idSources = true := by decide
+
+/-- what the obligation rejects (constants, not the source) -/
+example : fromOsEntropy [.globalPrng] = false ∧ fromOsEntropy [.clock, .pid] = false ∧
+    fromOsEntropy [.osEntropy 2] = false ∧ fromOsEntropy [.pid, .osEntropy 16] = true := by decide
+
 /-- hence the theorem holds of the program as generated from the source -/
 theorem gen_tokens_distinct (sched : List Nat) (i j : Nat) (hij : i ≠ j)
     (hi : (trun Gen.TokenProg.prog TS.init sched).done i = true)
